@@ -54,6 +54,20 @@ PathsAgree ==
                      \* a parameter clash is only met by the plain path when a pair is evaluated
                      \/ (scn.conflict /\ OkPairs(scn) = {})
 
+\* the event fold of spec/apalache/ExitFold.tla (whose inductive invariant Apalache checks for any
+\* number of files), computed on the scenario: the driver machine agrees with it
+RECURSIVE PlainFold(_, _, _)
+PlainFold(sc, r, e) ==
+  IF r > Len(sc.rules) THEN e
+  ELSE IF sc.rules[r] = "broken" THEN PlainFold(sc, r + 1, ExitParse)
+  ELSE IF sc.rules[r] = "ok" /\ \E d \in 1 .. Len(sc.data) : sc.ev[<<r, d>>] = "FAIL" THEN PlainFold(sc, r + 1, ExitFail)
+  ELSE PlainFold(sc, r + 1, e)
+FoldExit(sc) ==
+  CASE sc.path = "plain" -> PlainFold(sc, 1, ExitOk)
+    [] sc.path = "structured" -> IF AnyFail(sc) THEN ExitFail ELSE IF AnyBroken(sc) THEN ExitParse ELSE ExitOk
+    [] sc.path = "junit" -> IF AnyBroken(sc) THEN ExitParse ELSE IF AnyFail(sc) THEN ExitFail ELSE ExitOk
+FoldAgrees == (s.done /\ ~AnyError(scn)) => s.exit = FoldExit(scn)
+
 Emit == s.done => PrintT(<<"REPLAY", ToJson([rules |-> scn.rules, data |-> scn.data,
                                              ev |-> [i \in 1 .. Len(scn.rules) |-> [j \in 1 .. Len(scn.data) |-> scn.ev[<<i, j>>]]],
                                              conflict |-> scn.conflict, path |-> scn.path,
